@@ -4,6 +4,7 @@ import Proofs.C17.Golomb
 import Model.C17.Bip158
 import Proofs.C17.CompactBlocks
 import Proofs.C17.Block
+import Model.C17.MerkleProof
 import Proofs.C17.Bip158
 import Proofs.C17.PowLimit
 /-!
@@ -207,6 +208,62 @@ theorem inner_node_check (h : α → α → α) (bad : α → α → Bool) (br :
       rootFromBranch h x br i = .ok r ∧ ∀ p ∈ pathPairs h x br i, bad p.1 p.2 = false :=
   checked_ok_iff h bad br x r i
 
+/-- what the EXECUTED verifier's acceptance means (`Merkle.proofVerify` = `merkle_proof.verify`, the function the
+    driver runs on the `mk.proof` stream, with the 64-byte inner-node refusal instantiated at the executed
+    recogniser `MerkleProof.innerNodeIsTx`), for any hash `H`: widths and sign are right, the plain verifier
+    recomputes the (internal-order) root, and no 64-byte pair hashed on the way up is a serialized transaction. -/
+theorem proof_verify_accepts (H : Bytes → Bytes) (txid : Bytes) (br : List Bytes) (index : Int) (root : Bytes)
+    (hv : proofVerify H MerkleProof.innerNodeIsTx txid br index root = true) :
+    0 ≤ index ∧ txid.length = 32 ∧ root.length = 32 ∧ (∀ s ∈ br, s.length = 32) ∧
+    rootFromBranch (fun a b => H (a ++ b)) txid.reverse (br.map List.reverse) index.toNat = .ok root.reverse ∧
+    ∀ p ∈ pathPairs (fun a b => H (a ++ b)) txid.reverse (br.map List.reverse) index.toNat,
+      MerkleProof.innerNodeIsTx (p.1 ++ p.2) = false := by
+  unfold proofVerify at hv
+  simp only [Bool.and_eq_true, beq_iff_eq, List.all_eq_true] at hv
+  obtain ⟨⟨⟨hroot, htx⟩, hbr⟩, hm⟩ := hv
+  have hall : ∀ s ∈ br.map List.reverse, s.length = 32 := by
+    intro s hs
+    obtain ⟨t, ht, rfl⟩ := List.mem_map.mp hs
+    simpa using hbr t ht
+  cases hres : rootFromBranchBytesChecked H MerkleProof.innerNodeIsTx txid.reverse (br.map List.reverse) index with
+  | error e => rw [hres] at hm; cases hm
+  | ok r =>
+    rw [hres] at hm
+    simp only [beq_iff_eq] at hm
+    have hr : r = root.reverse := by rw [← hm]; simp
+    subst hr
+    unfold rootFromBranchBytesChecked at hres
+    by_cases hneg : index < 0
+    · simp [hneg] at hres
+    · simp only [hneg, if_false, List.length_reverse, htx, ne_eq, not_true_eq_false] at hres
+      rw [rootFromBranchBytesCheckedLoop_eq H _ _ _ _ hall, checked_ok_iff] at hres
+      exact ⟨by omega, htx, hroot, fun s hs => hbr s hs, hres.1, hres.2⟩
+
+/-- T2 for the executed verifier: if `proofVerify` accepts `(txid, branch, index)` against the root of an
+    unmutated tree `l` (internal byte order) — UNDER THE DEPTH ASSUMPTION `hd` (the branch has the tree's depth;
+    a verifier holding a branch alone cannot derive it, and `innerNodeIsTx` only excludes paths through a
+    64-byte transaction) — then `index` is a position of the tree and the txid is the leaf there, or two
+    distinct node pairs with equal hash are exhibited. -/
+theorem proof_verify_sound (H : Bytes → Bytes) (l : List Bytes) (txid : Bytes) (br : List Bytes) (index : Int)
+    (root : Bytes)
+    (hr : rootAndMutated (fun a b => H (a ++ b)) l = some (root.reverse, false))
+    (hd : br.length = (branch (fun a b => H (a ++ b)) l 0).length)
+    (hv : proofVerify H MerkleProof.innerNodeIsTx txid br index root = true) :
+    (0 ≤ index ∧ l[index.toNat]? = some txid.reverse) ∨
+      ∃ a b c d, (a, b) ≠ (c, d) ∧ H (a ++ b) = H (c ++ d) := by
+  obtain ⟨h0, _, _, _, hplain, _⟩ := proof_verify_accepts H txid br index root hv
+  have hd' : (br.map List.reverse).length = (branch (fun a b => H (a ++ b)) l 0).length := by simpa using hd
+  by_cases hi : index.toNat < l.length
+  · have hx : l[index.toNat]? = some l[index.toNat] := List.getElem?_eq_getElem hi
+    have hl : (br.map List.reverse).length = (branch (fun a b => H (a ++ b)) l index.toNat).length := by
+      rw [hd']
+      exact branch_length_eq _ _ l.length l l 0 index.toNat (Nat.le_refl _) rfl
+    rcases branch_sound_tree _ l index.toNat l[index.toNat] txid.reverse root.reverse _ hx hr hl hplain with e | c
+    · left; exact ⟨h0, by rw [hx, e]⟩
+    · right; exact c
+  · right
+    exact out_of_range_loop _ root.reverse l.length l (Nat.le_refl _) hr index.toNat txid.reverse _ (by omega) hd' hplain
+
 /-- T3: `mutated` is raised iff some level the loop visits holds an equal pair at an even position. -/
 theorem merkle_mutated_iff (h : α → α → α) (l : List α) (r : α) (m : Bool)
     (hr : rootAndMutated h l = some (r, m)) :
@@ -227,6 +284,14 @@ theorem merkle_bytes_verifier (H : Bytes → Bytes) (leaf : Bytes) (br : List By
     (hi : 0 ≤ index) (hl : leaf.length = 32) (hall : ∀ s ∈ br, s.length = 32) :
     rootFromBranchBytes H leaf br index = rootFromBranch (fun a b => H (a ++ b)) leaf br index.toNat :=
   rootFromBranchBytes_eq H leaf br index hi hl hall
+
+-- non-vacuity for the executed verifier: toy hash (first 32 bytes of the pair, incremented), two leaves
+example : proofVerify (fun b => (b.take 32).map (· + 1)) MerkleProof.innerNodeIsTx
+    (List.replicate 32 7) [List.replicate 32 9] 0 (List.replicate 32 8) = true := by decide
+-- …and refused when the 64-byte pair is a serialized transaction (version 1, one input, one output, locktime 0)
+example : MerkleProof.innerNodeIsTx
+    ([1, 0, 0, 0, 1] ++ List.replicate 32 0xAA ++ [0, 0, 0, 0, 0] ++ [5, 0, 0, 0] ++ [1] ++
+     [9, 0, 0, 0, 0, 0, 0, 0] ++ [4, 0x51, 0x52, 0x53, 0x54] ++ [0, 0, 0, 0]) = true := by decide
 
 -- non-vacuity on a three-leaf tree over a toy hash
 example : rootAndMutated (fun a b : Nat => 10 * a + b) [1, 2, 3] = some (153, false) := by
